@@ -205,7 +205,7 @@ fn mutate_tokens_duplicate_id(rng: &mut Rng, toks: &mut Vec<Token>) -> &'static 
     toks[b.1] = toks[a.1].clone();
     toks[b.2] = toks[a.2].clone();
     // fix-up
-    let length_pos = (alloc_at..toks.len()).find(|&i| matches!(toks[i], Token::Field("length"))).map(|i| i + 1);
+    let length_pos = (alloc_at..toks.len()).find(|&i| matches!(toks[i], Token::Field("length"))).map(|i| i + 1).filter(|&p| p < toks.len());
     let free_seq = (alloc_at..toks.len()).find(|&i| matches!(toks[i], Token::Seq { .. }));
     match (rng.below(3), length_pos, free_seq) {
         (0, Some(lp), _) => {
